@@ -36,7 +36,7 @@ chk("C13", "model_checking", "M1+E1",
     "Same machinery as C03; the mesh rule (double on success up to the cap, halve/quarter on failure, unchanged outside polls, search mesh <= poll mesh, "
     "tol_mesh stop) is an invariant/transition rule of the model, a field of every driven replay comparison, a clause TLC judges on every implementation "
     "trace, and is recomputed from the call log at every poll step of every explored deterministic execution.",
-    "In noisy modes success is judged on GP estimates that the harness does not second-guess (only double/half/quarter is required there).", "DESIGN 4.13")
+    "In noisy modes success is recomputed from the GP estimates observed at the improvement seam (posterior update required for every polled point); the sufficient-improvement threshold follows tol_improvement / forcing_exponent / sloppy_improvement / accelerate_mesh_steps.", "DESIGN 4.13")
 
 chk("C01", "model_checking", "E1+E3",
     "deviation-bounded exploration of real runs (every call, constraint argument, result and log row checked against the hard box) + exhaustive table of the search-bound rounding",
@@ -63,8 +63,8 @@ chk("C09", "model_checking", "E1",
 chk("C10", "fault_enumeration", "E1-faults",
     "exhaustive fault enumeration: every call index of a baseline run x every fault kind x noise mode on the real optimize()",
     "For each configuration the fault-free baseline gives N calls; every k in 0..N-1 x every fault kind (4 exception shapes, NaN, +-inf, complex, ndarray vector, list, tuple, None; "
-    "under specified noise also missing/over-long tuple and SD in {0,-1,NaN,inf}) is executed; exception type, no further call, func_count == k and a clean log are checked; "
-    "all phases (x0, noise test, initial design, search, poll, final re-sampling) must be hit.", "One fault per execution; strings and SD=None are not in the statement.", "DESIGN 4.10")
+    "under specified noise also missing/over-long tuple and SD in {0,-1,NaN,inf,None,complex,string,10**400,vector}) is executed; exception type, no further call, func_count == k and a clean log are checked; "
+    "all phases (x0, noise test, initial design, search, poll, final re-sampling) must be hit.", "One fault per execution; SD objects None/complex/string/huge int/vector are part of the SD fault kinds.", "DESIGN 4.10")
 chk("C16", "fault_enumeration", "E1-faults",
     "exhaustive fault enumeration over GP.fit invocation indices (singles, runs of 2-4, scattered pairs) with the C01/C03/C04/C05 monitors on every faulted run",
     "LinAlgError is raised on entry of GP.fit at every single invocation index, every run of 2-4 consecutive indices and every scattered pair, for det/auto/declared/specified noise x D; "
@@ -77,37 +77,37 @@ chk("C06", "exploration", "E3-panel",
     "than its snapped start (the per-run clause is also checked on every execution of C04's exploration).",
     "No claim outside the lattice; one seed per run derived from VERIF_SEED.", "DESIGN 4.6")
 chk("C07", "model_checking", "E2-histories",
-    "explicit enumeration of process histories (<= 2 activities from a 6-letter alphabet in two slots), each replayed in a fresh interpreter, against a history-free reference; bit-identical digests",
+    "explicit enumeration of process histories (<= 2 activities from a 10-letter alphabet in two slots), each replayed in a fresh interpreter, against a history-free reference; bit-identical digests",
     "For every problem (det / noisy drawing from the global generator / heavy noise / constrained; x0 given or absent; D=1,2) every history with <= 2 activities before construction and/or between "
     "construction and optimize() is executed in a fresh interpreter and the SHA-256 of all evaluated points, returned values and result fields is compared with the history-free reference "
     "(itself run under two hash seeds); a long-lived interpreter additionally chains cases.",
-    "Activity alphabet of 6; histories longer than 2 only through the chained worker.", "DESIGN 4.7")
+    "Activity alphabet of 10 (RNG draws, other runs incl. noisy / 1-D narrow / forced double refit, construction only, logging and print options, re-used bound arrays); histories longer than 2 only through the chained worker.", "DESIGN 4.7")
 chk("C08", "model_checking", "E3",
     "exhaustive enumeration of constructor input cells (value lattice^5 for D=1, class products for D=2,3, dimension mismatches, spellings) against an independent 3-valued validator",
     "Every assignment of (x0, lb, plb, pub, ub) from a per-argument lattice (absent, +-inf, NaN, finite values in every relative order, one-ulp neighbours, a decade, a plausible pair inside "
     "the 0.1% margin) is constructed on the real BADS; MUST_REJECT cells must raise ValueError with zero target calls, MUST_ACCEPT cells must be accepted and normalised; spellings "
     "(list/tuple/int/(D,)/(1,D)/scalars) must give identical normalised attributes and, for a fixed sub-family, identical runs.",
-    "Don't-care: x0 with NaN/inf, bounds 1-4 ulp apart; D<=3.", "DESIGN 4.8")
+    "Don't-care: x0 with NaN/inf, bounds 1-4 ulp apart (either outcome, but an accepted definition must still come out normalised); D<=3.", "DESIGN 4.8")
 chk("C11", "model_checking", "E3",
     "exhaustive enumeration of valid bound quadruples on a magnitude lattice (1e-12..1e12, +-inf) x point lattices against an independent reference transform",
     "Every valid quadruple from the lattice x nonlinear_scaling on/off is constructed; log flag, forward map, plausible bounds -> -1/+1, round trip < 1e-9 of the width, monotonicity, clamping of "
-    "just-outside inputs and vector-vs-matrix input are checked on a point lattice incl. one-ulp neighbours; D=2,3 products of class representatives.",
+    "just-outside inputs (incl. zero/negative ones below a log-scaled bound, which must map to the lower edge), integer-typed bound arrays and vector-vs-matrix input are checked on a point lattice incl. one-ulp neighbours; D=2,3 products of class representatives; the log rule is also checked through BADS(...) with nonlinear_scaling on/off/absent.",
     "Tolerances are conditioning-aware (rounding bound of (p-mu)/gamma) in addition to 1e-12.", "DESIGN 4.11")
 chk("C12", "model_checking", "E2",
     "explicit-state breadth-first search over FunctionLogger operation histories with canonical-state deduplication, compared with a list-of-records reference after every operation",
-    "call/add operations with record flags over colliding points (sharing 0..D coordinates), cache sizes 1..3 (growth at almost every step), 3 noise levels, 3 transforms, D<=3, "
+    "call/add operations with record flags over colliding points (sharing 0..D coordinates), cache sizes 1..3 (growth at almost every step), 3 noise levels, 3 transforms, D<=3, reported SDs incl. ones whose squares under/overflow, a target that overwrites its argument in place, "
     "all histories to depth 3 (quick) / 4-5 (thorough); every field of the log compared after every operation, untouched rows included.",
     "Noise level 1 has no pre-evaluated additions in the menu; Y_orig compared on unmerged rows only.", "DESIGN 4.12")
 chk("C14", "model_checking", "E3-random+E1",
     "the direction generator is run under an enumerating random source (every outcome of its integer, sign and permutation draws); every poll step of explored runs is recomputed from outside",
     "All outcomes for D<=3 and mesh ratios {<<1,1,2,4}: +/- pairing, integrality, entry bound, exact rational determinant != 0, signed permutation for ratio 1; in runs every polled point "
-    "must equal incumbent + mesh*direction (internal coordinates), each direction at most once, at most 2D points.",
+    "must equal incumbent + mesh*direction (internal coordinates), each direction at most once, at most 2D points, direction entries within the mesh-ratio bound; positive, mixed and negative poll scales.",
     "Upper-triangle draws (discarded by the generator) enumerated fully / over extremes as stated in the evidence.", "DESIGN 4.14")
 chk("C15", "model_checking", "E1+E3",
     "every GP fit/update/acquisition call of explored runs is checked through seams against the log; exhaustive enumeration of small-lattice logs for the neighbour selection",
     "Training pairs must be log rows (value exact, noise as SD^2), nearest-k in the length-scaled metric in ascending order, size within configured limits, posterior updates append or refresh "
     "exactly the just-logged evaluation, LCB = mean - sqrt(beta_t)*sd with the documented schedule; E3 over all logs of <= 5 lattice points x incumbents x length scales x size options.",
-    "Agreement of k with the radius/buffer rule is not an oracle (the statement only asks for the configured min/max).", "DESIGN 4.15")
+    "Agreement of k with the radius/buffer rule is not an oracle (the statement only asks for the configured min/max). The size of the very first fit is a recorded known finding.", "DESIGN 4.15")
 chk("C17", "model_checking", "E3+E1",
     "exhaustive enumeration of candidate arrays x boxes x tolerances x logs x constraints on small lattices for the real filter; every filter call of explored runs through a seam",
     "All candidate arrays with repetition and order (<=3-4 rows D=1, <=2-3 rows D=2) x box x projection flag x tolerance x logged sets x constraint; four clauses keyed separately "
@@ -116,18 +116,18 @@ chk("C17", "model_checking", "E3+E1",
 chk("C18", "model_checking", "E3+E2+E1",
     "exhaustive (mu,lambda) table for the rank-selection mask; explicit-state BFS over hedge score histories with enumerated uniform draws; ES seams in explored runs",
     "Mask index validity for all mu,lambda <= 64/300 and (mu,2048); hedge probabilities sum to 1 with floor and the chosen index matches the draw over all event histories to depth 4/6 for "
-    "three beta values; in runs the proposed point must be the argmin of all acquisition values collected inside the ES call, all candidates inside the mesh-rounded box and feasible, "
+    "three beta values; in runs the proposed point must be the argmin of all acquisition values collected inside the ES call and of the independently recomputed configured LCB, all candidates inside the box rounded to the current search mesh (recomputed) and feasible, "
     "<= 1 target call per search step; both strategies forced through the hedge draw.",
     "All-NaN acquisition values are a don't-care for the argmin clause.", "DESIGN 4.18")
 chk("C19", "model_checking", "E1+E2",
     "every recorded iteration of explored runs (all noise modes, noise scripts) compared with the call log; BFS over IterationHistory operation histories against a dict-of-lists reference; copy isolation by mutating every reachable array and re-running",
-    "hist.x evaluated, hist.yval observed there, func_count monotone, result.x an iterate (the last one for deterministic), fixed key set readable both ways, unknown keys rejected, "
+    "hist.x evaluated, hist.yval observed there, func_count monotone, result.x an iterate (the last one for deterministic), fixed key set readable both ways, unknown keys rejected (item assignment, update, setdefault), "
     "result unchanged by later mutation of the optimiser's arrays and by a second optimize().",
     "What the second optimize() does is not judged.", "DESIGN 4.19")
 chk("C20", "model_checking", "E3+E2",
     "every option name overridden alone, all pairs in a core set, D in {1,2,3,7}, each block in a fresh interpreter, against an independent evaluation of the ini defaults; all interleavings of construct/run/poke events of three instances in fresh interpreters",
     "User value identity, dependent defaults (tol_noise, hedge_beta), every other option equal to its ini expression for the problem's own D, unknown names -> ValueError, "
-    "no change of another instance's options after any event, caller's dict/arrays unchanged after construction and optimize().",
+    "no change of another instance's options after any event, every run in every interleaving identical to the same instance run alone (effect of random_seed and of the other options), display='off' silent, a supplied noise_size surviving the run, caller's dict/arrays unchanged after construction and optimize().",
     "Don't-care: three documented normalisations; an instance's own rewrites during its own optimize().", "DESIGN 4.20")
 
 NOT_BUILT = {}
